@@ -72,12 +72,12 @@ def run(tier, replay=None):
         for n, (m, pc, idk, expect) in enumerate(classes):
             idv = 41 + n if idk == "int" else "req-%d" % n
             body, errmsg, iserr = rc.body_for(m, pc, idv)
-            items.append({"id": "c%d" % n, "body": body, "sse": kind == "sse"})
+            items.append({"id": "c%d" % n, "body": body, "sse": kind == "sse", "expect_answer": True})
             meta.append(dict(method=m, pc=pc, expect=expect, reqid=idv, isreq=True, errmsg=errmsg, iserr=iserr, body=body))
         for e in env:
             if e.get("http_only") and kind == "stdio":
                 continue
-            it = {"id": e["id"], "body": e["body"], "sse": kind == "sse"}
+            it = {"id": e["id"], "body": e["body"], "sse": kind == "sse", "expect_answer": bool(e["isreq"] and "none" not in e["expect"])}
             if e.get("path"):
                 if kind == "legacy":
                     it["path"] = e["path"] + "?sessionId=x"
